@@ -28,6 +28,7 @@ pub type Enumerate = fn(u64) -> Vec<String>;
 fn oracles() -> Vec<(&'static str, Enumerate, Check)> {
     vec![
         ("c15_make_linked_list", o_lists::enum_mll, o_lists::check_mll),
+        ("c15_parsed", o_lists::enum_parsed, o_lists::check_parsed),
         ("c09_anon", o_unify::enum_anon, o_unify::check_anon),
         ("c08_cycle", o_unify::enum_cycle, o_unify::check_cycle),
         ("c13_function", o_unify::enum_function, o_unify::check_function),
